@@ -2,6 +2,7 @@
 package vquery
 
 import (
+	"os"
 	"time"
 
 	"verif/rig"
@@ -14,6 +15,9 @@ func Register() {
 	rig.Register(&rig.Spec{Prop: "C26", Level: "exploration", Stages: []rig.Stage{
 		{Name: "differential", Fn: c26, TimeoutQuick: 20 * time.Minute, TimeoutThorough: 6 * time.Hour},
 	}})
+	if os.Getenv("VQUERY_DEV_C16SQL") != "" { // development only: run the C16 SQL stage standalone (the stage is wired into C16 by the owner of C16)
+		rig.Register(&rig.Spec{Prop: "C16SQL", Level: "exploration", Stages: []rig.Stage{{Name: "c16sql", Fn: C16SQL, TimeoutQuick: 20 * time.Minute}}})
+	}
 	rig.Register(&rig.Spec{Prop: "C36", Level: "exploration", Stages: []rig.Stage{
 		{Name: "roundtrip", Fn: c36, TimeoutQuick: 25 * time.Minute, TimeoutThorough: 6 * time.Hour},
 	}})
